@@ -103,6 +103,7 @@ class Interp:
         self.pre_request = None
         self.terminal = False
         self.co_depth = 0
+        self.shared_exc = {}
 
         # ---- handles
         class SimHandle(d.WorldHandle):
@@ -441,7 +442,7 @@ class Interp:
                   'instead of raising SwitchWorld')
 
     def sop_raise_switch(self, op, inst):
-        _, T, cc, cn = op
+        T, cc, cn = op[1:4]
         d = self.desper
         self.pre_request = (self.loop.current_world,
                             self.loop.current_world_handle)
@@ -456,6 +457,15 @@ class Interp:
         if cn:
             self.cached[T] = None
         self.after_request(rec, frm, y, cc, direct=True)
+        if len(op) > 4 and op[4] == 'shared':
+            # one exception object kept by the program and raised again and
+            # again (RESTART = SwitchWorld(level, clear_next=True))
+            key = (T, cc, cn)
+            if key in self.shared_exc:
+                self.probes['same_SwitchWorld_instance_raised_again'] += 1
+            e = self.shared_exc.setdefault(
+                key, d.SwitchWorld(self.handles[T], cc, cn))
+            raise e.with_traceback(None)
         raise d.SwitchWorld(self.handles[T], cc, cn)
 
     def sop_loop_switch(self, op, inst):
@@ -940,7 +950,7 @@ def gen_config(prop, rng):
             'coro_prio': rng.choice([0, 1, -1]),
             'comps': comps})
     kind = rng.choice(['int', 'float', 'frac', 'int', 'float', 'frac',
-                       'datetime', 'timedelta'])
+                       'datetime', 'timedelta', 'bigfloat'])
     if kind in ('datetime', 'timedelta'):
         # any non-decreasing readings whose differences are the dt
         tag = 'DT' if kind == 'datetime' else 'TD'
@@ -949,6 +959,15 @@ def gen_config(prop, rng):
             rng.randint(1, 6))]
         for wspec in worlds:
             wspec['coros'] = []         # (coroutine timers want numbers)
+    elif kind == 'bigfloat':
+        # float readings that cross 2**52 / 2**53: every reading and every
+        # difference of consecutive readings is exact, "reading minus the
+        # first reading" is not
+        start, jump = rng.choice([(1.0, 2.0 ** 53 - 1.0),
+                                  (0.5, 2.0 ** 52 - 0.5),
+                                  (3.0, 2.0 ** 53 - 3.0)])
+        incs = [0.0, jump] + [rng.choice([2.0, 2.0, 4.0, 1.0 if start == 0.5
+                                          else 2.0]) for _ in range(40)]
     elif kind == 'int':
         start = rng.choice([0, 10, -5, 2 ** 40])
         incs = [rng.choice([0, 1, 1, 2, 1000]) for _ in range(
@@ -963,6 +982,9 @@ def gen_config(prop, rng):
             rng.randint(1, 6))]
     return {'policy': rng.choice(kernel.POLICIES), 'worlds': worlds,
             'own_loop': rng.random() < .2,
+            'shared_switch': ([rng.randrange(nw), rng.random() < .5,
+                               rng.random() < .7]
+                              if rng.random() < .1 else None),
             'load_quit': ({str(rng.randrange(nw)): rng.choice([1, 2, 2, 3])}
                           if prop == 'C14' and rng.random() < .08 else {}),
             'clock': {'start': start, 'incs': incs}}
@@ -1010,6 +1032,9 @@ def gen_script(prop, rng, cfg, key, state):
                        rng.random() < .35,
                        rng.choice(['default', 'default', 'current'])]]
     if r < .93:
+        if cfg.get('shared_switch'):
+            return ops + [['raise_switch'] + list(cfg['shared_switch'])
+                          + ['shared']]
         return ops + [['raise_switch', rng.randrange(nw), rng.random() < .3,
                        rng.random() < .3]]
     return ops + [rng.choice([['quit'], ['quit_loop', 'none'], ['boom']])]
@@ -1161,7 +1186,8 @@ PROBES = {
             'probe_on_muted_world', 'held_events_released',
             'entry_cut_by_held_event_callback', 'carried_events_released',
             'entry_cut_by_chained_switch', 'non_default_loop',
-            'probe_on_discarded_world'],
+            'probe_on_discarded_world',
+            'same_SwitchWorld_instance_raised_again'],
     'C14': ['quit_while_next_world_loads', 'stop_iteration_escapes_a_frame',
             'plain_loop_switch_call',
             'quit_from.proc_first', 'quit_from.proc', 'quit_from.on_update',
